@@ -1,6 +1,7 @@
 package main
 
 import (
+	"go/types"
 	"encoding/json"
 	"flag"
 	"fmt"
@@ -24,6 +25,8 @@ func usage() {
 	os.Exit(2)
 }
 
+var noEvidence bool
+
 func main() {
 	if len(os.Args) < 2 {
 		usage()
@@ -35,6 +38,7 @@ func main() {
 	verbose := fs.Bool("v", false, "verbose")
 	safety := fs.Bool("safety", false, "emit safety obligations")
 	timeout := fs.Int("timeout", 0, "per-obligation solver timeout (s)")
+	fs.BoolVar(&noEvidence, "noevidence", false, "do not write evidence/replay files under /verif (scratch runs on another tree)")
 	var pos []string
 	args := os.Args[2:]
 	// allow flags after positional args
@@ -302,6 +306,7 @@ func runCheck(prop, tier, repo string, verbose, safety bool, timeout int) int {
 	}
 	// lemmas tagged with the property
 	v.emitLemmas(prop)
+	v.emitTypeShapes(prop)
 	var obls []*Obligation
 	for _, o := range v.obls {
 		if oblHasProp(o, prop) || o.Canary {
@@ -315,6 +320,10 @@ func runCheck(prop, tier, repo string, verbose, safety bool, timeout int) int {
 		}
 	}
 	work := filepath.Join(root, ".work", prop)
+	if noEvidence {
+		work, _ = os.MkdirTemp("", "govc_work_")
+		defer os.RemoveAll(work)
+	}
 	os.RemoveAll(work)
 	known := loadKnownFindings()
 	for _, o := range obls {
@@ -360,6 +369,9 @@ func runCheck(prop, tier, repo string, verbose, safety bool, timeout int) int {
 	var perObl []map[string]interface{}
 	solverTime := 0.0
 	replayDir := filepath.Join(root, "replays", prop)
+	if noEvidence {
+		replayDir = filepath.Join(work, "replays")
+	}
 	for _, name := range order {
 		g := groups[name]
 		solverTime += g.Time
@@ -381,7 +393,16 @@ func runCheck(prop, tier, repo string, verbose, safety bool, timeout int) int {
 		}
 		if kf != nil {
 			if len(g.Failed) > 0 {
-				knownLines = append(knownLines, fmt.Sprintf("KNOWN-FINDING: property=%s %s [%s] obligation %s fails (%s)", prop, kf.ID, kf.What, name, g.Failed[0].Result))
+				line := fmt.Sprintf("KNOWN-FINDING: property=%s %s [%s] obligation %s fails (%s)", prop, kf.ID, kf.What, oblBase(name), g.Failed[0].Result)
+				dup := false
+				for _, l := range knownLines {
+					if strings.HasPrefix(l, fmt.Sprintf("KNOWN-FINDING: property=%s %s ", prop, kf.ID)) {
+						dup = true // one line per listed finding, however many paths of its obligation fail
+					}
+				}
+				if !dup {
+					knownLines = append(knownLines, line)
+				}
 			} else {
 				// the defect seems repaired: the obligation now discharges; nothing to report
 				nObl++
@@ -401,6 +422,16 @@ func runCheck(prop, tier, repo string, verbose, safety bool, timeout int) int {
 			rp := writeReplay(replayDir, prop, f, v)
 			tail := ""
 			confirmed := tryReplay(v, f, rp, repo)
+			// the obligation failed on several paths: the replay of any of them may confirm a failing input
+			for k := 1; k < len(g.Failed) && k < 4 && !confirmed; k++ {
+				if g.Failed[k].RefuteModel == "" && g.Failed[k].CandidateModel == "" {
+					continue
+				}
+				rp2 := writeReplay(replayDir, prop, g.Failed[k], v)
+				if tryReplay(v, g.Failed[k], rp2, repo) {
+					confirmed, f, rp = true, g.Failed[k], rp2
+				}
+			}
 			if !confirmed {
 				tail = " no-failing-input-found"
 			}
@@ -428,7 +459,44 @@ func runCheck(prop, tier, repo string, verbose, safety bool, timeout int) int {
 	}
 	wall := time.Since(start).Seconds()
 	// evidence
-	writeEvidence(root, prop, tier, seed, v, funcs, order, groups, perObl, nObl, nDis, nCanary, violations, knownLines, wall, loadT, genT, solveT, solverTime, obls)
+	var extra map[string]interface{}
+	if tier == "thorough" && !noEvidence {
+		rep := &thoroughReport{}
+		v.secondSolver(obls, rep)
+		all := map[string]bool{}
+		for _, ax := range v.cs.Axioms {
+			all[ax.Name] = true
+		}
+		v.validateAxioms(prop, all, rep)
+		if violations == 0 {
+			selfTest(prop, root, repo, rep)
+		}
+		replayFindings(prop, root, known, rep)
+		for _, d := range rep.Disagreements {
+			fmt.Println("INTERNAL-ERROR solver disagreement:", d)
+			internal++
+		}
+		for _, a := range rep.AxiomsFalsified {
+			fmt.Println("INTERNAL-ERROR assumed axiom falsified by Go's own implementation:", a)
+			internal++
+		}
+		for _, mname := range rep.MutantsMissed {
+			fmt.Println("SELFTEST-MISSED must-fail mutant not caught:", mname)
+		}
+		fmt.Printf("thorough: %d/%d discharged obligations confirmed by a second solver (%d undecided by it), %d axioms validated on %d concrete evaluations (%d not evaluable), self-test %d/%d mutants caught, findings replayed: %v\n",
+			rep.SecondSolverConfirmed, rep.SecondSolverConfirmed+rep.SecondSolverUndecided, rep.SecondSolverUndecided, rep.AxiomsValidated, rep.AxiomEvaluations, len(rep.AxiomsNotEvaluable), rep.MutantsCaught, rep.MutantsRun, rep.FindingsReplayed)
+		extra = map[string]interface{}{
+			"second_solver_confirmed": rep.SecondSolverConfirmed, "second_solver_undecided": rep.SecondSolverUndecided, "disagreements_checked": rep.SecondSolverConfirmed + rep.SecondSolverUndecided,
+			"solver_disagreements": rep.Disagreements, "axioms_validated_concretely": rep.AxiomsValidated, "axiom_evaluations": rep.AxiomEvaluations,
+			"axioms_not_evaluable": rep.AxiomsNotEvaluable, "axioms_falsified": rep.AxiomsFalsified,
+			"selftest_mutants_run": rep.MutantsRun, "selftest_mutants_caught": rep.MutantsCaught, "selftest_mutants_missed": rep.MutantsMissed,
+			"findings_replayed": rep.FindingsReplayed,
+		}
+	}
+	wall = time.Since(start).Seconds()
+	if !noEvidence {
+		writeEvidence(root, prop, tier, seed, v, funcs, order, groups, perObl, nObl, nDis, nCanary, violations, knownLines, wall, loadT, genT, solveT, solverTime, obls, extra)
+	}
 	fmt.Printf("%s: %d obligations, %d discharged, %d violations, %d known findings, %d canaries, %.1fs (load %.1f, vcgen %.1f, solve %.1f)\n",
 		prop, nObl, nDis, violations, len(knownLines), nCanary, wall, loadT, genT, solveT)
 	if internal > 0 {
@@ -461,7 +529,7 @@ func writeReplay(dir, prop string, o *Obligation, v *Verifier) string {
 }
 
 func writeEvidence(root, prop, tier string, seed int, v *Verifier, funcs, order []string, groups map[string]*oblGroup, perObl []map[string]interface{},
-	nObl, nDis, nCanary, violations int, known []string, wall, loadT, genT, solveT, solverTime float64, obls []*Obligation) {
+	nObl, nDis, nCanary, violations int, known []string, wall, loadT, genT, solveT, solverTime float64, obls []*Obligation, extra map[string]interface{}) {
 	var trusted, assumptions []string
 	for _, c := range v.cs.Order {
 		if c.Used && (c.Extern || c.Iface) {
@@ -475,6 +543,9 @@ func writeEvidence(root, prop, tier string, seed int, v *Verifier, funcs, order 
 			for _, a := range c.Assumes {
 				trusted = append(trusted, fmt.Sprintf("assumed clause of %s: %s: %s", c.Key, a.Label, a.Src))
 			}
+		}
+		if c.TrustedFrame && contractHasProp(c, prop) {
+			trusted = append(trusted, fmt.Sprintf("modifies clause assumed, not checked: %s (%s)", c.Key, c.TrustedWhy))
 		}
 		if c.Trusted && contractHasProp(c, prop) {
 			trusted = append(trusted, fmt.Sprintf("trusted body: %s (%s)", c.Key, c.TrustedWhy))
@@ -539,6 +610,9 @@ func writeEvidence(root, prop, tier string, seed int, v *Verifier, funcs, order 
 		"timing_s": map[string]float64{"load": round3(loadT), "vcgen": round3(genT), "solve_wall": round3(solveT)},
 		"contract_files": v.cs.Files,
 	}
+	for k, x := range extra {
+		cov[k] = x
+	}
 	ev := map[string]interface{}{
 		"property_id": prop, "tier": tier, "seed": seed, "level": "proof", "coverage": cov, "assumptions": assumptions,
 		"wall_s": round3(wall), "violations": violations,
@@ -546,6 +620,162 @@ func writeEvidence(root, prop, tier string, seed int, v *Verifier, funcs, order 
 	os.MkdirAll(filepath.Join(root, "evidence"), 0o755)
 	b, _ := json.MarshalIndent(ev, "", " ")
 	os.WriteFile(filepath.Join(root, "evidence", prop+".json"), b, 0o644)
+}
+
+// emitTypeShapes turns `typeshape` declarations tagged with prop into structural obligations.
+func (v *Verifier) emitTypeShapes(prop string) {
+	for _, ts := range v.cs.TypeShapes {
+		has := false
+		for _, p := range ts.Props {
+			if p == prop {
+				has = true
+			}
+		}
+		if !has {
+			continue
+		}
+		o := &Obligation{Name: "typeshape." + ts.TypeText + "." + ts.Label, Func: "typeshape", Kind: "structural", Label: ts.Label, Props: ts.Props,
+			Clause: ts.TypeText + ": " + ts.Kind, Goal: "true", Preset: true, Result: "unsat", Solver: "structural-scan"}
+		var pkg *types.Package
+		for _, p := range v.allTypesPkgs {
+			if p.Path() == ts.PkgPath {
+				pkg = p
+			}
+		}
+		var problems []string
+		if pkg == nil {
+			problems = append(problems, "package not loaded")
+		} else {
+			t, _ := v.resolveType(ts.TypeText, pkg)
+			switch ts.Kind {
+			case "json-roundtrip":
+				problems = jsonRoundTripProblems(t, map[string]bool{}, ts.TypeText)
+			default:
+				problems = append(problems, "unknown typeshape kind "+ts.Kind)
+			}
+		}
+		if len(problems) > 0 {
+			o.Result = "structural-fail"
+			o.Output = strings.Join(dedup(problems), "; ")
+		}
+		v.obls = append(v.obls, o)
+	}
+}
+
+// jsonRoundTripProblems: reasons why json.Unmarshal(json.Marshal(x)) could lose information of a value of type t
+// (encoding/json documentation: only exported fields are encoded; "-" tags skip a field; channels, functions and
+// interfaces do not round-trip; map keys must be strings or integers; field names that collide are dropped).
+func jsonRoundTripProblems(t types.Type, seen map[string]bool, path string) []string {
+	if t == nil {
+		return []string{path + ": unknown type"}
+	}
+	switch namedString(t) {
+	case "time.Time", "time.Duration":
+		return nil
+	}
+	if n, ok := types.Unalias(t).(*types.Named); ok {
+		key := n.String()
+		if seen[key] {
+			return nil
+		}
+		seen[key] = true
+	}
+	var out []string
+	switch u := t.Underlying().(type) {
+	case *types.Basic:
+		if u.Info()&(types.IsBoolean|types.IsString|types.IsInteger|types.IsFloat) == 0 {
+			out = append(out, path+": basic type "+u.String()+" is not JSON-serialisable")
+		}
+	case *types.Pointer:
+		out = append(out, jsonRoundTripProblems(u.Elem(), seen, path)...)
+	case *types.Slice:
+		out = append(out, jsonRoundTripProblems(u.Elem(), seen, path+"[]")...)
+	case *types.Array:
+		out = append(out, jsonRoundTripProblems(u.Elem(), seen, path+"[]")...)
+	case *types.Map:
+		if b, ok := u.Key().Underlying().(*types.Basic); !ok || b.Info()&(types.IsString|types.IsInteger) == 0 {
+			out = append(out, path+": map key type "+u.Key().String()+" is not a JSON object key")
+		}
+		out = append(out, jsonRoundTripProblems(u.Elem(), seen, path+"[k]")...)
+	case *types.Struct:
+		names := map[string]string{}
+		for i := 0; i < u.NumFields(); i++ {
+			f := u.Field(i)
+			fp := path + "." + f.Name()
+			if !f.Exported() {
+				out = append(out, fp+": unexported field is not written to the audit file")
+				continue
+			}
+			tag := reflectTag(u.Tag(i), "json")
+			name := f.Name()
+			if tag != "" {
+				parts := strings.Split(tag, ",")
+				if parts[0] == "-" && len(parts) == 1 {
+					out = append(out, fp+": json:\"-\" tag, the field is not written to the audit file")
+					continue
+				}
+				if parts[0] != "" {
+					name = parts[0]
+				}
+				for _, opt := range parts[1:] {
+					if opt == "string" {
+						out = append(out, fp+": json ',string' option changes the encoding")
+					}
+				}
+			}
+			lower := strings.ToLower(name)
+			if other, dup := names[lower]; dup {
+				out = append(out, fp+": JSON name collides with "+other)
+			}
+			names[lower] = fp
+			out = append(out, jsonRoundTripProblems(f.Type(), seen, fp)...)
+		}
+	case *types.Interface, *types.Chan, *types.Signature:
+		out = append(out, path+": "+t.String()+" does not round-trip through JSON")
+	}
+	return out
+}
+
+// reflectTag extracts key:"value" from a struct tag (reflect.StructTag.Get without importing reflect semantics)
+func reflectTag(tag, key string) string {
+	for tag != "" {
+		i := 0
+		for i < len(tag) && tag[i] == ' ' {
+			i++
+		}
+		tag = tag[i:]
+		if tag == "" {
+			break
+		}
+		i = 0
+		for i < len(tag) && tag[i] > ' ' && tag[i] != ':' && tag[i] != '"' && tag[i] != 0x7f {
+			i++
+		}
+		if i == 0 || i+1 >= len(tag) || tag[i] != ':' || tag[i+1] != '"' {
+			break
+		}
+		name := tag[:i]
+		tag = tag[i+1:]
+		i = 1
+		for i < len(tag) && tag[i] != '"' {
+			if tag[i] == '\\' {
+				i++
+			}
+			i++
+		}
+		if i >= len(tag) {
+			break
+		}
+		q := tag[:i+1]
+		tag = tag[i+1:]
+		if name == key {
+			if v, err := strconv.Unquote(q); err == nil {
+				return v
+			}
+			return ""
+		}
+	}
+	return ""
 }
 
 // emitLemmas turns `lemma` declarations tagged with prop into obligations (proved from axioms declared BEFORE them).
